@@ -19,7 +19,6 @@ import (
 	runner_pb "github.com/buildbarn/bb-remote-execution/pkg/proto/runner"
 	"github.com/buildbarn/bb-storage/pkg/blobstore/buffer"
 	"github.com/buildbarn/bb-storage/pkg/blobstore/slicing"
-	bb_clock "github.com/buildbarn/bb-storage/pkg/clock"
 	"github.com/buildbarn/bb-storage/pkg/digest"
 	"github.com/buildbarn/bb-storage/pkg/filesystem"
 	"github.com/buildbarn/bb-storage/pkg/filesystem/path"
@@ -148,6 +147,7 @@ type executorOutcome struct {
 	response        *remoteexecution.ExecuteResponse
 	endedByHorizon  bool
 	returnedAtStart bool // Execute returned before ever calling the runner
+	spun            bool // more than baseTimerLimit base timers were armed
 }
 
 func runExecutorTimeline(t *testing.T, tl *timeline, exitCode int32) (out executorOutcome, failure string) {
@@ -160,7 +160,9 @@ func runExecutorTimeline(t *testing.T, tl *timeline, exitCode int32) (out execut
 	synctest.Test(t, func(st *testing.T) {
 		start := time.Now()
 		out.start = start
-		clk := re_clock.NewSuspendableClock(bb_clock.SystemClock, time.Duration(tl.M)*unit, time.Duration(tl.Th)*unit)
+		base := newBaseClock()
+		defer func() { out.spun = base.overflow.Load() }()
+		clk := re_clock.NewSuspendableClock(base, time.Duration(tl.M)*unit, time.Duration(tl.Th)*unit)
 		dir := &fakeBuildDirectory{}
 		runner := &fakeRunner{exit: make(chan struct{}), exitCode: exitCode}
 		out.runner = runner
@@ -314,6 +316,9 @@ func TestC11ExecutorTimeout(t *testing.T) {
 		out, failure := runExecutorTimeline(t, tl, exitCode)
 		if failure != "" {
 			rt.Fatalf("%s; script=%s", failure, tl)
+		}
+		if out.spun {
+			rt.Fatalf("more than %d base timers were armed for one action: the re-arm loop spins; script=%s", baseTimerLimit, tl)
 		}
 		msg, x := checkExecutor(tl, out, exitCode)
 		if msg != "" {
